@@ -306,9 +306,20 @@ pub fn eval_raw<S: Num>(d: &Diag) -> Result<RawTensor<S>, EvalError> {
 
 /// Exact tensor of a diagram times `scalar` (phases must be multiples of pi/4).
 pub fn eval_exact(d: &Diag, scalar: &R) -> Result<Vec<R>, EvalError> {
-    let raw = eval_raw::<Zw>(d)?;
-    let f = R::sqrt2_pow(-raw.sqrt2_neg).mul(scalar);
-    Ok(raw.entries.iter().map(|z| R::from_zw(z).mul(&f)).collect())
+    // fast path: checked i128 coefficients; big diagrams (6-qubit circuits with dozens of
+    // Hadamard edges) can exceed them, then the same contraction is repeated over BigInt
+    match std::panic::catch_unwind(|| eval_raw::<Zw>(d)) {
+        Ok(raw) => {
+            let raw = raw?;
+            let f = R::sqrt2_pow(-raw.sqrt2_neg).mul(scalar);
+            Ok(raw.entries.iter().map(|z| R::from_zw(z).mul(&f)).collect())
+        }
+        Err(_) => {
+            let raw = eval_raw::<R>(d)?;
+            let f = R::sqrt2_pow(-raw.sqrt2_neg).mul(scalar);
+            Ok(raw.entries.iter().map(|z| z.mul(&f)).collect())
+        }
+    }
 }
 
 /// Magnitude bookkeeping for the float evaluator: the same contraction with every factor
@@ -374,9 +385,7 @@ pub fn eval_float_noise(d: &Diag, scalar: Cf) -> Result<(Vec<Cf>, f64), EvalErro
 /// known in floating point: the diagram part is evaluated exactly (so an exact 0 stays 0
 /// and there is no cancellation noise), only the final multiplication is in f64.
 pub fn eval_exact_times_float(d: &Diag, scalar: Cf) -> Result<Vec<Cf>, EvalError> {
-    let raw = eval_raw::<Zw>(d)?;
-    let f = R::sqrt2_pow(-raw.sqrt2_neg);
-    Ok(raw.entries.iter().map(|z| R::from_zw(z).mul(&f).to_cf() * scalar).collect())
+    Ok(eval_exact(d, &R::one())?.iter().map(|z| z.to_cf() * scalar).collect())
 }
 
 /// max |a_i - b_i| <= tol * max(1, max|a_i|, max|b_i|)
